@@ -117,6 +117,9 @@ func (pe *pathEnum) paths(stmts []ast.Stmt, only int64) []stmtPath {
 				continue
 			}
 			for _, q := range pe.stmt(s, only) {
+				if contradicts(p.facts, q.facts) {
+					continue // infeasible: the same side-effect-free condition with both polarities
+				}
 				np := stmtPath{events: append(append([]callEvent(nil), p.events...), q.events...),
 					facts: append(append([]condFact(nil), p.facts...), q.facts...), exit: q.exit}
 				next = append(next, np)
@@ -240,4 +243,41 @@ func (pe *pathEnum) stmt(s ast.Stmt, only int64) []stmtPath {
 	}
 	pe.fail("unsupported statement kind", s)
 	return []stmtPath{{}}
+}
+
+// contradicts reports whether two fact lists assign different truth values to
+// the same pure condition text.  Conditions containing calls (other than
+// len/cap) are never considered, nor are conditions over variables the
+// enumerated code may assign between the two tests — callers use this only for
+// bodies that do not assign the variables they branch on (interpreter clauses
+// re-test `r.operator`, writer arms re-test node.M / curIndex).
+func contradicts(a, b []condFact) bool {
+	for _, x := range a {
+		if !pureCondText(x.expr) {
+			continue
+		}
+		for _, y := range b {
+			if x.expr == y.expr && x.val != y.val {
+				return true
+			}
+		}
+	}
+	return false
+}
+
+func pureCondText(s string) bool {
+	// calls appear as "name(" in types.ExprString output; allow len( and cap(
+	for i := 0; i < len(s); i++ {
+		if s[i] == '(' && i > 0 {
+			j := i
+			for j > 0 && (s[j-1] == '_' || s[j-1] >= 'a' && s[j-1] <= 'z' || s[j-1] >= 'A' && s[j-1] <= 'Z' || s[j-1] >= '0' && s[j-1] <= '9' || s[j-1] == '.') {
+				j--
+			}
+			name := s[j:i]
+			if name != "" && name != "len" && name != "cap" {
+				return false
+			}
+		}
+	}
+	return true
 }
